@@ -7,11 +7,6 @@ impl Permissions {
     #[verifier::external_body]
     pub fn mode(&self) -> (r: u32) ensures r == self.mode_spec() { unimplemented!() }
 }
-impl core::ops::Deref for PathBuf {
-    type Target = Path;
-    #[verifier::external_body]
-    fn deref(&self) -> (r: &Path) ensures r@ == self@ { unimplemented!() }
-}
 /// (dir, name) is where the operation on `p` has to act: `dir` is the in-root resolution of
 /// everything before the last '/', `name` is the final component (C14)
 pub open spec fn is_target(dir: int, name: Seq<u8>, p: Seq<u8>) -> bool {
